@@ -77,7 +77,18 @@ class Interp:
         gate = core.gate
         idx = op.get('c', 0) % POOL
         target = self.pool[idx]
+        # circuits that stem from one another (copy.copy, compositions) share no mutable state: a call on one circuit
+        # leaves every other circuit of the pool as it was
+        bystanders = {j: wellformed.snapshot(self.pool[j]) for j in range(POOL) if j != idx}
         work = copy.deepcopy(target)
+        # every third step the circuit about to be changed has a fresh copy.copy standing next to it
+        twin = twin_before = None
+        if len(self.log) % 3 == 0:
+            try:
+                twin = copy.copy(work)
+                twin_before = wellformed.snapshot(twin)
+            except Exception:  # noqa
+                twin = None
         name = op['op']
         kind = name
         try:
@@ -298,6 +309,15 @@ class Interp:
         self.adopted += 1
         self.kinds.append(kind)
         self.check_invariant(work, op, kind)
+        if twin is not None and name != 'copy' and wellformed.snapshot(twin) != twin_before:
+            now = wellformed.snapshot(twin)
+            raise Violation('copy_changed_by:' + kind, f'after step {len(self.log)} ({op}): a copy.copy taken just before the call changed in '
+                                                       f'{[k for k in twin_before if twin_before[k] != now[k]]}')
+        for j, before in bystanders.items():
+            if wellformed.snapshot(self.pool[j]) != before:
+                now = wellformed.snapshot(self.pool[j])
+                raise Violation('other_circuit_changed_by:' + kind, f'after step {len(self.log)} ({op}) on circuit {idx}: circuit {j} changed in '
+                                                                    f'{[k for k in before if before[k] != now[k]]}')
         return kind
 
     def check_invariant(self, c, op, kind):
